@@ -1,6 +1,7 @@
 /- Driver operations for `Snowing0D.lean` / `Snowing1D.lean`. -/
 import SnowModel.Snowing0D
 import SnowModel.Snowing1D
+import SnowModel.SnowingRuns
 import SnowModel.Ops.OpCond
 import SnowModel.Wire
 
@@ -148,10 +149,63 @@ def snowing1D : Op := fun j => do
       ++ hist
       ++ (if traces then [("Etrace", encArr α r.Etrace), ("sigma", encArr α r.sigma)] else []))
 
+/-- `snowingRuns`: successive `run()` calls on ONE object (`"dim"`: "0D" | "1D"; `"runs"`: the
+requests of the individual runs; `"fixed"`: use the repaired `run()`). After every run: the
+exception class of `run()`, what `.results` gives (statistics | "AssertionError") and what the
+history accessors give (number of rows | "AssertionError" | null). -/
+def snowingRuns : Op := fun j => do
+  let dim ← str j "dim"
+  let fixed := flag j "fixed"
+  let runs ← arr j "runs"
+  let encRes (r : Except String (Option (List (String × Json)))) : Json :=
+    match r with
+    | .error e => Json.mkObj [("raise", Json.str e)]
+    | .ok none => Json.null
+    | .ok (some kv) => Json.mkObj kv
+  let encHist (r : Except String (Option Nat)) : Json :=
+    match r with
+    | .error e => Json.mkObj [("raise", Json.str e)]
+    | .ok none => Json.null
+    | .ok (some n) => encNat n
+  if dim == "0D" then
+    let mut o : SnowObj (Stats0D α) (Hist0D α) := SnowObj.fresh
+    let mut out : Array Json := #[]
+    for rq in runs do
+      match ← decSnowIn α rq with
+      | .error e => out := out.push (Json.mkObj [("raise", Json.str e), ("stage", Json.str "opcond")])
+      | .ok p =>
+        let r := run0D p
+        o := if fixed then o.runFixed (out0D r) else o.run (out0D r)
+        let res := o.results.map fun s => s.map fun s =>
+          [("T_nuc", Wire.enc s.T_nuc), ("t_nuc", Wire.enc s.t_nuc), ("t_sol", encOpt α s.t_sol),
+           ("t_fr", encOpt α s.t_fr)]
+        let hist := o.history.map fun h => h.map fun h => h.time.size
+        out := out.push (Json.mkObj [("raise", excJson r.exc), ("stage", Json.str r.stage),
+          ("results", encRes res), ("nrows", encHist hist)])
+    return Json.mkObj [("runs", Json.arr out)]
+  else
+    let mut o : SnowObj (Stats1D α) (Array (Row α)) := SnowObj.fresh
+    let mut out : Array Json := #[]
+    for rq in runs do
+      match ← decSnowIn α rq with
+      | .error e => out := out.push (Json.mkObj [("raise", Json.str e), ("stage", Json.str "opcond")])
+      | .ok p =>
+        let r := if flag rq "old" then run1DOld p else run1D p
+        o := if fixed then o.runFixed (out1D r) else o.run (out1D r)
+        let res := o.results.map fun s => s.map fun s =>
+          [("T_nuc_min", Wire.enc s.T_nuc_min), ("T_nuc_kin", Wire.enc s.T_nuc_kin),
+           ("T_nuc_mean", Wire.enc s.T_nuc_mean), ("T_nuc_max", Wire.enc s.T_nuc_max),
+           ("t_nuc", Wire.enc s.t_nuc), ("t_sol", encOpt α s.t_sol), ("t_fr", encOpt α s.t_fr)]
+        let hist := o.history.map fun h => h.map fun h => h.size
+        out := out.push (Json.mkObj [("raise", excJson r.exc), ("stage", Json.str r.stage),
+          ("results", encRes res), ("nrows", encHist hist)])
+    return Json.mkObj [("runs", Json.arr out)]
+
 end
 
 def snowingOps : List (String × Op) := [
   ("snowing0D", fun j => snowing0D Float j),
-  ("snowing1D", fun j => snowing1D Float j)]
+  ("snowing1D", fun j => snowing1D Float j),
+  ("snowingRuns", fun j => snowingRuns Float j)]
 
 end Snow.Ops
